@@ -339,6 +339,29 @@ where
     }
 }
 
+/// Reads exactly `len` bytes into the given buffer.
+///
+/// This is used when the length is read from the input. Unlike resizing the buffer and filling it
+/// using [`Read::read_exact`], the buffer grows as data is read, i.e., a length that is larger
+/// than the rest of the input does not allocate (and clear) a buffer of that length.
+pub(crate) fn read_exact_to_vec<R>(reader: &mut R, buf: &mut Vec<u8>, len: usize) -> io::Result<()>
+where
+    R: Read,
+{
+    let limit = u64::try_from(len).map_err(|e| io::Error::new(io::ErrorKind::InvalidInput, e))?;
+
+    buf.clear();
+
+    if reader.by_ref().take(limit).read_to_end(buf)? == len {
+        Ok(())
+    } else {
+        Err(io::Error::new(
+            io::ErrorKind::UnexpectedEof,
+            "failed to fill whole buffer",
+        ))
+    }
+}
+
 pub(crate) fn resolve_region(
     contig_string_map: &ContigStringMap,
     region: &Region,
